@@ -441,7 +441,7 @@ impl Prop for C09 {
             }
             for (fh, hi) in [(false, false), (true, true)] {
                 let base = Case { file_handles: fh, use_host_ino: hi, progs: progs.clone(), schedule: vec![] };
-                let (_runs, all) = explore_all(&base, &mut e, w.tier.pick(800, 250_000));
+                let (_runs, all) = explore_all(&base, &mut e, w.tier.pick(800, 150_000));
                 complete &= all;
                 if e.res.violation.is_some() {
                     break;
